@@ -201,6 +201,16 @@ func c10Exec(run *ev.Run, c ev.Case) {
 					}
 					c10Run(run, se, sess, c10One{Mode: b.Mode, Cmd: b.Cmd, Script: append([]string(nil), pre...), CancelAt: len(pre), Suite: suite + i})
 				}
+				if b.Mode == "in" {
+					// non-responses carrying extreme BMC sequence numbers, then the real answer - and the
+					// commands after it on the same session
+					for _, x := range []string{"garbage:unauth-hiseq", "garbage:othersid-hiseq", "garbage:badsig-hiseq", "garbage:unauth-seq0"} {
+						for _, sc := range [][]string{{x, "ok"}, {x, "busy", "ok"}, {"busy", x, "cc:c1"}, {x, x, "ok"}} {
+							c10Run(run, se, sess, c10One{Mode: b.Mode, Cmd: b.Cmd, Script: sc, Suite: suite})
+							c10Run(run, se, sess, c10One{Mode: b.Mode, Cmd: b.Cmd, Script: []string{"ok"}, Suite: suite})
+						}
+					}
+				}
 				for _, n := range []int{14, 15, 16, 17, 31, 32, 33, 64, 100} {
 					for v := 0; v < 2; v++ {
 						var sc []string
